@@ -162,7 +162,8 @@ End Exec.
          except (KeyboardInterrupt, SystemExit): pass
      finally:
          if options.output_interval: rt.stop()
-         prof.dump_stats(options.outfile); print('Wrote ...'); <inspect hint>; install_profiler(None) *)
+         prof.dump_stats(options.outfile); print('Wrote ...'); <inspect hint>;
+         <the global @profile is handed back: FUninstall> *)
 Definition absorbed (k : kind) : bool := match k with KKbdInt | KSysExit => true | _ => false end.
 Definition kern_main (ctx timed : bool) (outfile : string) : stmt :=
   SSeq (SEff FInstall)
